@@ -194,6 +194,7 @@ fn check_forest(case: &ForestCase, ctx: &mut Ctx) -> Result<(), Fail> {
 pub fn property() -> Property {
     Property {
         id: "C06",
+        quick_mult: 32,
         rule: "training sets of 4..80 (quick) / 120 (thorough) rows, 1..6 features (same feature classes as C05), 2..5 classes / real targets, any u64 seed, n_trees 1..30, m None or 1..p, tree limits as in C05, keep_samples on (70%) / off; every forest is fitted twice; member trees are restored from the forest's JSON and queried individually. non-trivial = n_trees >= 3 and two member trees disagree on some row; distinct = distinct serialised case",
         assumptions: vec![
             "training rows for which no tree is out-of-bag are skipped in the OOB check (counted in evidence)".into(),
